@@ -29,6 +29,11 @@ CHECKS = {
     technique='exhaustive decision table on the real decision function against a reference model, plus explicit enumeration of (policy shape, identity, object kind, addressing operation) on clones of a real store with not-found indistinguishability, frame and owner invariants',
     text='(a) The complete product of policy name (absent/default/public/user) x 228 user-policy shapes (preset x group g1 x group g2 cell kinds incl. missing operation/type/group/section) x requester x 8 group lists x 9 object types x 14 operations is evaluated on the engine\'s real decision entry point and compared with a reference decision written from the statement (618k decisions). (b) For every decisive policy shape and for one-hot policies granting exactly one operation or exactly one object type, a real store is built through the session seam; from it every one of 7 identities performs Locate and each of 19 object-addressing requests (direct, crypto uses, DeriveKey first/second base, wrapping key) on every object kind, each on a clone: a request the reference denies must fail exactly like the same request for an identifier that never existed, carry no payload and leave the raw database bit-identical; a granted request must not be answered as not-found; Locate must list exactly the permitted objects; no owner column may change.',
     note='Operations without their own policy entry are judged under GET as the engine documents. An empty group list under a policy without group sections may be decided either way. Policy shapes are uniform over cells except for the one-hot policies, so call-site/operation confusions are covered by the one-hot family only.'),
+ 'C08': dict(
+    category='model_checking', design_ref='DESIGN.md 4/C08',
+    technique='exhaustive enumeration of batches (all item sequences up to length 3/4 over a 13/18-item alphabet x deviation-bounded header variants x initial stores) on the real session+engine with a batch model and a twin-engine differential oracle',
+    text='Every sequence of 1..3 items over 13 (quick) / 18 (thorough, plus all length-4 sequences over 10) succeeding and failing batch items is sent as one request under every header variant with at most one deviation (two for length <= 2) from the default over batch-item-ID placement (all/none/missing on item k), error continuation option (absent/Stop/Continue/Undo), batch order option and initial store (Active key / Pre-Active key / empty). The response must be a prefix of the items in order with operation and ID echoed, stop at the first failure unless Continue, and carry a matching batch count; the final raw database must equal that of a twin engine to which only the successfully reported items were applied as single requests (placeholder substituted) and each reported result must equal the twin\'s - so a failed item left nothing, a reported success took full effect and no unreported item took effect.',
+    note='os.urandom is replaced by a length-determined constant so batch and twin generate equal key material; logical clock. Request-level rejection is accepted for Undo and for a missing batch item ID only if nothing was executed.'),
 }
 
 NOT_YET = {}
